@@ -13,6 +13,18 @@ pub fn flatten_primitive_array_values(values: Vec<Primitive>) -> IterableKind {
     if first.is_none() {
         return IterableKind::Anys(vec![]);
     }
+    //rows of a nested array stay addressable as rows even when their element kinds
+    //differ: an empty row, or a row of integers next to a row with decimals
+    if values.iter().all(|v| matches!(v, Primitive::Iterable(_))) {
+        let rows = values
+            .into_iter()
+            .map(|v| match v {
+                Primitive::Iterable(b) => b,
+                _ => unreachable!(),
+            })
+            .collect();
+        return IterableKind::Iterables(rows);
+    }
     let first_kind = first.unwrap().get_type();
     let all_equal_type = values.iter().all(|v| v.get_type() == first_kind);
     if !all_equal_type {
